@@ -89,7 +89,8 @@ def run_one(m: dict) -> dict:
 
 def load_mutants() -> list[dict]:
     from .mutants import MUTANTS
-    out = list(MUTANTS)
+    from .mutants2 import MUTANTS2
+    out = list(MUTANTS) + list(MUTANTS2)
     seeded = os.path.join(VERIF, "seeded")
     if os.path.isdir(seeded):
         for d in sorted(os.listdir(seeded)):
